@@ -105,7 +105,8 @@ def handle (d : DSt) (j : Json) : R (DSt × Json) := do
   if op == "linux_pid_exists" then
     let n ← natF j "n"
     let mid ← listF parseKEv j "mid"
-    let (k', o) := linuxPidExists d.m.k n mid
+    let deny := (optF asBool j "deny").toOption.join.getD false
+    let (k', o) := if deny then linuxPidExistsDenied d.m.k n mid else linuxPidExists d.m.k n mid
     -- the statement's promise (True exactly for listed PIDs) when nothing changes inside the call
     let sp : Json := if mid.isEmpty && decide (n ≤ pidTMax) then jOut (.bool ((Spec.listed d.s.k).contains n)) else Json.null
     return (⟨{ d.m with k := k' }, { d.s with k := d.s.k.applyAll mid }, d.mouts ++ [o], d.souts ++ [none]⟩,
